@@ -64,10 +64,26 @@ theorem serve_from_winner_partial (cfg : Cfg) (hA : cfg.os.killAtomic = true) (s
     (∀ q, s.p = .awaiting v w q → (∀ x ∈ s.served, x.1 = w) ∧ ∀ r ∈ s.reply, r = (w, q)) :=
   PySMT.Portfolio.serve_from_winner cfg hA s h v w
 
-/-- A1 ⇒ `get_model / get_value` is answered on every schedule. -/
+/-- A1 ⇒ on every schedule `get_model / get_value` ends, and the parent has then received exactly the winner's reply to
+    the query it asked (`served` grows by `(w, q)`); the only other ending is the death of the winner process after its
+    answer (fault `OS.serveCrash`): then the call ends with an error (EOFError) and nothing is received.  The reply may
+    itself be an exception raised by the member's solver (F25f repair: it is sent back and re-raised). -/
 theorem query_answered_partial (cfg : Cfg) (hA : cfg.os.killAtomic = true) (s : State) (h : Reach cfg s) (v : Bool) (w q : Nat)
-    (hp : s.p = .awaiting v w q) : Inev cfg (fun t => t.p = .returned v w ∧ ∀ x ∈ t.served, x.1 = w) s :=
-  PySMT.Portfolio.query_answered cfg hA s h v w q hp
+    (hp : s.p = .awaiting v w q) :
+    Inev cfg (fun t => t.p = .returned v w ∧
+      (t.served = s.served ++ [(w, q)] ∨ (t.served = s.served ∧ t.ms[w]? = some .crashed))) s :=
+  PySMT.Portfolio.query_answered_exact cfg hA s h v w q hp
+
+/-- A1 ⇒ no call of the API blocks: `solve` (with or without assumptions), `get_model / get_value` after a verdict,
+    `get_model / get_value` without a kept solver (after a `solve()` that raised, before the first `solve()`, after `exit()`:
+    immediate `ValueError`, F25e repair), `push / pop / add_assertion`, `exit()` -- each ends on every schedule. -/
+theorem api_call_returns_partial (cfg : Cfg) (hA : cfg.os.killAtomic = true) (s t : State) (h : Reach cfg s)
+    (hu : UStep cfg s t) : Inev cfg (fun u => quiescent u.p = true) t :=
+  PySMT.Portfolio.api_call_returns cfg hA s t h hu
+
+/-- Every schedule of a `solve()` call has at most `7·n + 2` internal steps (`imeasure` of the start state). -/
+theorem solve_step_bound (cfg : Cfg) (s t : State) (n : Nat) (h : IPath cfg n (fresh cfg s) t) : n ≤ 7 * cfg.n + 2 :=
+  PySMT.Portfolio.solve_step_bound cfg s t n h
 
 /-- A1 ⇒ when `solve()` is over, no member but the winner is left. -/
 theorem losers_dead_partial (cfg : Cfg) (hA : cfg.os.killAtomic = true) (s : State) (h : Reach cfg s) :
@@ -75,13 +91,16 @@ theorem losers_dead_partial (cfg : Cfg) (hA : cfg.os.killAtomic = true) (s : Sta
     (∀ e, s.p = .raised e → ∀ (j : Nat) m, s.ms[j]? = some m → alive m = false) :=
   PySMT.Portfolio.losers_dead cfg hA s h
 
-/-- A1 + correct members (those that answer give `truth c`, and for "sat" their model is `good`) ⇒ the verdict is
-    `truth c` and all models / values obtained afterwards come from one member whose model satisfies the assertions. -/
-theorem model_satisfies_partial (cfg : Cfg) (hA : cfg.os.killAtomic = true) (truth : Nat → Bool) (good : Nat → Nat → Prop)
-    (hmem : ∀ c i v, i < cfg.n → cfg.beh c i = .answer v → v = truth c ∧ (v = true → good c i))
+/-- A1 + `MembersSound` (an explicit assumption object about the member solvers: those that answer give `truth c`, and
+    the model `modelOf c i` a member builds for a "sat" answer satisfies the formula, `sat c ·`) ⇒ the verdict is
+    `truth c`, and everything obtained afterwards was computed by one and the same answering member `w`, whose model
+    satisfies the formula.  What is *proved* is the portfolio's part ("the winner is an answering member and every reply
+    came from it"); the satisfaction is inherited from `MembersSound.model`, it is a hypothesis, not a result. -/
+theorem model_satisfies_partial (cfg : Cfg) (hA : cfg.os.killAtomic = true) (truth : Nat → Bool) {Model : Type}
+    (modelOf : Nat → Nat → Model) (sat : Nat → Model → Prop) (hm : MembersSound cfg truth modelOf sat)
     (s : State) (h : Reach cfg s) (v : Bool) (w : Nat) (hp : s.p = .returned v w) :
-    v = truth s.cycle ∧ (v = true → good s.cycle w ∧ ∀ x ∈ s.served, x.1 = w) :=
-  PySMT.Portfolio.model_satisfies cfg hA truth good hmem s h v w hp
+    v = truth s.cycle ∧ (v = true → sat s.cycle (modelOf s.cycle w) ∧ ∀ x ∈ s.served, x.1 = w) :=
+  PySMT.Portfolio.model_satisfies_sound cfg hA truth modelOf sat hm s h v w hp
 
 /-- The closed form used by the driver is sound: the outcome of `solve()` number `c` is in `allowed cfg c`
     (in particular never "blocked", by `solve_terminates`). -/
@@ -131,11 +150,25 @@ example : Outcome.error (.member 0 .solverError) ∈ allowed (cfgRU true) 1 ∧
 example : Reach (cfgTT true) ttServed ∧ ttServed.p = .returned true 0 ∧ ttServed.served = [(0, 0)] :=
   ⟨reach_ttServed, by decide, by decide⟩
 
--- the hypothesis of `model_satisfies` about the members is satisfiable
-example : ∀ c i v, i < cfgTU.n → cfgTU.beh c i = .answer v → v = (fun _ => true) c ∧ (v = true → (fun _ i => i = 0) c i) := by
-  intro c i v _ hb
-  simp only [cfgTU] at hb
-  split at hb <;> simp_all
+-- the hypothesis `MembersSound` of `model_satisfies` is satisfiable by a non-trivial object: in `cfgTU` the formula is
+-- "x" (satisfiable), a model is the value of x, member 0 (the only one that answers) builds the model x = true
+example : MembersSound cfgTU (fun _ => true) (fun _ i => decide (i = 0)) (fun _ m => m = true) :=
+  ⟨by intro c i v _ hb; simp only [cfgTU] at hb; split at hb <;> simp_all,
+   by intro c i _ hb; simp only [cfgTU] at hb; split at hb <;> simp_all⟩
+
+-- `query_answered_partial`, second alternative: the winner dies while the parent waits, the call ends with EOF
+example : Reach cfgTTc ttcEOF ∧ ttcEOF.p = .returned true 0 ∧ ttcEOF.served = [] ∧ ttcEOF.ms[0]? = some .crashed :=
+  ⟨reach_ttcEOF, by decide, by decide, by decide⟩
+
+-- `api_call_returns_partial`: a query without a kept solver is a legal call in a reachable state
+example : ∃ s, Reach (cfgRU false) s ∧ UStep (cfgRU false) s s ∧ s.p = .raised .allFailed :=
+  let ⟨s, h, _, _, ho⟩ := PySMT.Portfolio.allowed_reachable (cfgRU false) 0 (.error .allFailed) (by decide)
+  have hp : s.p = .raised .allFailed := by unfold outcomeOf at ho; split at ho <;> simp_all
+  ⟨s, h, UStep.askNoSolver s (Or.inr ⟨_, hp⟩), hp⟩
+
+-- `solve_step_bound`: a path of internal steps from the start of a `solve()` exists (8 steps for the 2 members of cfgTT)
+example : ∃ t, IPath (cfgTT true) 2 (fresh (cfgTT true) init) t :=
+  ⟨_, IPath.cons 1 _ _ _ (IStep.finish _ 0 (by decide)) (IPath.cons 0 _ _ _ (IStep.finish _ 1 (by decide)) (IPath.nil _))⟩
 
 -- `query_answered`: a reachable state in which the parent waits for a reply
 example : Reach (cfgTT true) (askState (ttReturned true) true 0 0) ∧
